@@ -40,12 +40,15 @@ def decodeInt (n : Nat) (bs : Bytes) : Except DecErr (Nat × Nat × Bytes) :=
       | .ok (v, r') => .ok (flags, v, r')
       | .error e => .error e
 
-/-- the `while rem >= 0x80` loop of `encode_integer` -/
-def encodeIntCont (rem : Nat) : Bytes :=
-  if h : rem ≥ 128 then UInt8.ofNat (rem % 128 + 128) :: encodeIntCont (rem / 128)
-  else [UInt8.ofNat rem]
-termination_by rem
-decreasing_by omega
+/-- the `while rem >= 0x80` loop of `encode_integer` (`fuel` bounds the number of turns; `rem`
+turns always suffice since every turn divides `rem` by 128) -/
+def encodeIntContF : Nat → Nat → Bytes
+  | 0, rem => [UInt8.ofNat rem]
+  | fuel + 1, rem =>
+    if rem ≥ 128 then UInt8.ofNat (rem % 128 + 128) :: encodeIntContF fuel (rem / 128)
+    else [UInt8.ofNat rem]
+
+def encodeIntCont (rem : Nat) : Bytes := encodeIntContF rem rem
 
 /-- `Encoder::encode_integer::<N>(flags, value)`; `((flags as usize) << N) as u8` truncates -/
 def encodeInt (n : Nat) (flags value : Nat) : Bytes :=
